@@ -229,37 +229,39 @@ def run(ctx):
   ctx.check(names_ok, 'C03.kinds', construct(pi_), 'in an import statement the imported name and the alias are single identifiers',
             'import grammar changed: %s -- a dotted name there (`from a import b.c`) is accepted instead of rejected' % why_i, pi_.loc(), instance='import-names')
 
-  # selector modes: a reference / macro name may carry a dotted scope (`@pkg.mod/fn`), an imported module is never scoped
-  from ..lib import param_values
-  self_fn = ctx.func(sel)
-  sparams = [a_.arg for a_ in self_fn.node.args.args]
-  if 'scoped' not in sparams or 'allow_periods_in_scope' not in sparams:
-    raise AnalysisError('_parse_selector no longer takes (scoped, allow_periods_in_scope): %s' % sparams)
-  WANT = {'_maybe_parse_configurable_reference': (True, True, 'a reference'), '_maybe_parse_macro': (True, True, 'a macro'),
-          '_parse_import': (False, None, 'an import')}
-  n_modes = 0
-  for mname, (w_scoped, w_periods, what) in WANT.items():
-    mf = ctx.func(CP + '.' + mname)
-    for cc in walk_local(mf.node):
-      if not (isinstance(cc, ast.Call) and prog.resolve_call(mf, cc) == sel):
-        continue
-      pv = param_values(self_fn, cc)
-      if pv is None:
-        raise AnalysisError('%s calls _parse_selector with arguments this rule cannot bind: `%s`' % (mname, u(cc)))
-      got = {}
-      for k_ in ('scoped', 'allow_periods_in_scope'):
-        e_ = pv.get(k_)
-        if not (isinstance(e_, ast.Constant) and isinstance(e_.value, bool)):
-          raise AnalysisError('%s passes a non-constant %s to _parse_selector: `%s`' % (mname, k_, u(cc)))
-        got[k_] = e_.value
-      n_modes += 1
-      okm = got['scoped'] == w_scoped and (w_periods is None or got['allow_periods_in_scope'] == w_periods)
-      ctx.check(okm, 'C03.kinds', construct(mf), 'the name of %s is read with scoped=%s%s' % (what, w_scoped, '' if w_periods is None else ', allow_periods_in_scope=%s' % w_periods),
-                'the name of %s is read with scoped=%s, allow_periods_in_scope=%s (`%s`): %s' % (
-                    what, got['scoped'], got['allow_periods_in_scope'], u(cc),
-                    'a dotted scope (`@pkg.mod/fn`, `%pkg.mod/name`) is rejected instead of recovered' if w_scoped else 'a scoped module name is accepted'),
-                mf.loc(cc), instance='selector-mode:' + mname)
-  ctx.expect_at_least('selector-reading calls with a fixed mode', n_modes, 4)
+  def _selector_modes():
+    # selector modes: a reference / macro name may carry a dotted scope (`@pkg.mod/fn`), an imported module is never scoped
+    from ..lib import param_values
+    self_fn = ctx.func(sel)
+    sparams = [a_.arg for a_ in self_fn.node.args.args]
+    if 'scoped' not in sparams or 'allow_periods_in_scope' not in sparams:
+      raise AnalysisError('_parse_selector no longer takes (scoped, allow_periods_in_scope): %s' % sparams)
+    WANT = {'_maybe_parse_configurable_reference': (True, True, 'a reference'), '_maybe_parse_macro': (True, True, 'a macro'),
+            '_parse_import': (False, None, 'an import')}
+    n_modes = 0
+    for mname, (w_scoped, w_periods, what) in WANT.items():
+      mf = ctx.func(CP + '.' + mname)
+      for cc in walk_local(mf.node):
+        if not (isinstance(cc, ast.Call) and prog.resolve_call(mf, cc) == sel):
+          continue
+        pv = param_values(self_fn, cc)
+        if pv is None:
+          raise AnalysisError('%s calls _parse_selector with arguments this rule cannot bind: `%s`' % (mname, u(cc)))
+        got = {}
+        for k_ in ('scoped', 'allow_periods_in_scope'):
+          e_ = pv.get(k_)
+          if not (isinstance(e_, ast.Constant) and isinstance(e_.value, bool)):
+            raise AnalysisError('%s passes a non-constant %s to _parse_selector: `%s`' % (mname, k_, u(cc)))
+          got[k_] = e_.value
+        n_modes += 1
+        okm = got['scoped'] == w_scoped and (w_periods is None or got['allow_periods_in_scope'] == w_periods)
+        ctx.check(okm, 'C03.kinds', construct(mf), 'the name of %s is read with scoped=%s%s' % (what, w_scoped, '' if w_periods is None else ', allow_periods_in_scope=%s' % w_periods),
+                  'the name of %s is read with scoped=%s, allow_periods_in_scope=%s (`%s`): %s' % (
+                      what, got['scoped'], got['allow_periods_in_scope'], u(cc),
+                      'a dotted scope (`@pkg.mod/fn`, `%pkg.mod/name`) is rejected instead of recovered' if w_scoped else 'a scoped module name is accepted'),
+                  mf.loc(cc), instance='selector-mode:' + mname)
+    ctx.expect_at_least('selector-reading calls with a fixed mode', n_modes, 3)
+  ctx.section(_selector_modes)
 
   # ---- C03.queue
   init = c.methods.get('__init__')
